@@ -167,9 +167,10 @@ static void run_cohere(Json& js, vh::Rng& rng, long budget) {
         const int kind = (int)rng.range(0, 3);
         static const char* KN[] = {"scaled", "random", "filtered", "dynamic"};
         arr_real x(N), y(N);
+        const double lev = std::pow(10.0, -6 + 8 * rng.unif());   // overall level 1e-6 .. 100: coherence is level-free
         for (int i = 0; i < N; ++i) {
-            x[i] = rng.gauss() + (kind == 3 ? 1e4 * std::cos(0.3 * i) : 0.0);   // large dynamic range spectrum
-            y[i] = rng.gauss();
+            x[i] = lev * (rng.gauss() + (kind == 3 ? 1e4 * std::cos(0.3 * i) : 0.0));   // large dynamic range spectrum
+            y[i] = lev * rng.gauss();
         }
         const char* kn = KN[kind];
         if (kind == 0 || kind == 3) {
